@@ -22,6 +22,7 @@ import (
 //	ret-local      : `return f(x), nil`                                               ->  `r0_ := f(x); return r0_, nil`
 //	return-swap    : a function body ending `if c { S; return X }; return Y`            ->  `if !(c) { return Y }; S; return X`
 //	if-to-switch   : `if a { A } else if b { B } else { C }`                              ->  `switch { case a: A; case b: B; default: C }`
+//	lit-split      : `x := &T{A: a, B: b}`                                              ->  `x := &T{}; x.A = a; x.B = b`
 //	cond-local     : `if c { ... }` (not an else-if)                                    ->  `c1_ := c; if c1_ { ... }`
 //	arg-local      : `x := f(a, g(b))` / `f(a, g(b))`                                 ->  `a1_ := g(b); x := f(a, a1_)`
 var astSweeps = map[string]func(f *ast.File) int{
@@ -34,6 +35,7 @@ var astSweeps = map[string]func(f *ast.File) int{
 	"cond-local":   sweepCondLocal,
 	"return-swap":  sweepReturnSwap,
 	"if-to-switch": sweepIfToSwitch,
+	"lit-split":    sweepLitSplit,
 }
 
 func cmdSweepAST(kind string) int {
@@ -491,6 +493,73 @@ func sweepIfToSwitch(f *ast.File) int {
 			(*list)[i] = &ast.SwitchStmt{Body: &ast.BlockStmt{List: clauses}}
 			n++
 		}
+	})
+	return n
+}
+
+// sweepLitSplit turns a keyed struct literal that defines a local into an empty literal followed by field assignments.
+func sweepLitSplit(f *ast.File) int {
+	n := 0
+	eachStmtList(f, func(owner ast.Node, list *[]ast.Stmt) {
+		var out []ast.Stmt
+		for _, s := range *list {
+			out = append(out, s)
+			as, ok := s.(*ast.AssignStmt)
+			if !ok || as.Tok != token.DEFINE || len(as.Lhs) != 1 || len(as.Rhs) != 1 {
+				continue
+			}
+			id, ok := as.Lhs[0].(*ast.Ident)
+			if !ok || id.Name == "_" {
+				continue
+			}
+			rhs := as.Rhs[0]
+			if ue, isU := rhs.(*ast.UnaryExpr); isU && ue.Op == token.AND {
+				rhs = ue.X
+			}
+			cl, ok := rhs.(*ast.CompositeLit)
+			if !ok || len(cl.Elts) == 0 {
+				continue
+			}
+			switch cl.Type.(type) {
+			case *ast.Ident, *ast.SelectorExpr:
+			default:
+				continue
+			}
+			var assigns []ast.Stmt
+			usable := true
+			for _, el := range cl.Elts {
+				kv, isKV := el.(*ast.KeyValueExpr)
+				if !isKV {
+					usable = false
+					break
+				}
+				key, isID := kv.Key.(*ast.Ident)
+				if !isID {
+					usable = false
+					break
+				}
+				// a value that mentions the local being defined would change meaning
+				mentions := false
+				ast.Inspect(kv.Value, func(m ast.Node) bool {
+					if x, isX := m.(*ast.Ident); isX && x.Name == id.Name {
+						mentions = true
+					}
+					return true
+				})
+				if mentions {
+					usable = false
+					break
+				}
+				assigns = append(assigns, &ast.AssignStmt{Lhs: []ast.Expr{&ast.SelectorExpr{X: ast.NewIdent(id.Name), Sel: ast.NewIdent(key.Name)}}, Tok: token.ASSIGN, Rhs: []ast.Expr{kv.Value}})
+			}
+			if !usable {
+				continue
+			}
+			cl.Elts = nil
+			out = append(out, assigns...)
+			n++
+		}
+		*list = out
 	})
 	return n
 }
